@@ -482,7 +482,8 @@ func (g *c02Gen) stmt(env *c02Env, depth int, fnTop bool) string {
 	case k < 52: // block
 		inner := newC02Env(env, false)
 		g.feat["block"]++
-		return "{" + g.stmts(inner, depth-1, 1+g.r.Intn(4), false) + "}"
+		// a block never consists of declarations only (K-C02-7)
+		return "{" + g.stmts(inner, depth-1, 1+g.r.Intn(4), false) + g.use(inner) + "}"
 	case k < 58: // if / else; no lexical declaration directly in a branch (else-flattening, K-C02-1)
 		g.feat["if"]++
 		a := "{" + g.use(newC02Env(env, false)) + g.nestedBlockOrUse(env, depth-1) + "}"
@@ -502,11 +503,12 @@ func (g *c02Gen) stmt(env *c02Env, depth int, fnTop bool) string {
 		switch g.r.Intn(3) {
 		case 0:
 			g.declare(inner, v, "num", false)
-			body := g.stmts(inner, depth-1, 1+g.r.Intn(3), false)
 			if top && !g.opt.topDecls {
+				body := g.stmts(inner, depth-1, 1+g.r.Intn(3), false)
 				return fmt.Sprintf("for(let %s=0;%s<2;%s++){%s}", v, v, v, body)
 			}
-			g.declare(env, arr, "obj", true)
+			g.declare(env, arr, "obj", true) // before the body: the body must not mention the array by a global's name
+			body := g.stmts(inner, depth-1, 1+g.r.Intn(3), false)
 			g.feat["closureLoop"]++
 			return fmt.Sprintf("const %s=[];for(let %s=0;%s<2;%s++){%s%s.push(()=>R(%d,%s))}%s.forEach(%s=>%s());", arr, v, v, v, body, arr, g.nextSite(), v, arr, v, v)
 		case 1:
